@@ -141,13 +141,31 @@ func ruleHolderLookupFailureSurfaces(w *core.World, r *core.Report) {
 		return
 	}
 	n := 0
+	own := map[*ssa.Function]bool{}
 	for _, g := range core.DeepFuncs(f) {
+		own[g] = true
+	}
+	// the look-up is made by the maintenance itself (the retried closure), or by a function of the package that is
+	// one attempt of it (a method the closure calls): its failure must then also be what the closure returns
+	for _, g := range reachableFuncs(f) {
 		for _, s := range core.SitesNamed(g, false, "syncer.checkpointRunIdsHolderFirst") {
 			if s.Instr.Parent() != g {
 				continue
 			}
 			n++
-			r.Check(failureReturned(g, s), "updateCheckpoint/holder-lookup-failure-surfaces", s.Pos(), "a failed look-up of the id that holds the checkpoint does not end the attempt: the maintenance goes on with the source's own order of ids and re-keys a checkpoint of the previous id to the current one before the source has been asked")
+			ok := failureReturned(g, s)
+			if ok && !own[g] {
+				handedUp := false
+				for h := range own {
+					for _, cs := range core.Sites(h, false) {
+						if cs.Callee == g && cs.Instr.Parent() == h {
+							handedUp = failureReturned(h, cs)
+						}
+					}
+				}
+				ok = handedUp
+			}
+			r.Check(ok, "updateCheckpoint/holder-lookup-failure-surfaces", s.Pos(), "a failed look-up of the id that holds the checkpoint does not end the attempt: the maintenance goes on with the source's own order of ids and re-keys a checkpoint of the previous id to the current one before the source has been asked")
 		}
 	}
 	if n == 0 {
